@@ -1,5 +1,5 @@
-import Pr.PlannerProofs
-import Pr.ScanPred
+import PlannerProofs
+import ScanPred
 /-! calibration: IterateRange over a sorted entry list is a filter -/
 namespace Pl
 
